@@ -50,6 +50,89 @@ func canonFull(ans string) string {
 	return ans
 }
 
+// asymFullEnc: the same for EncryptPublicKey / DecryptPrivateKey (model: generated dispatch + key
+// guard + the Lean-native RSAES scheme of the helper's stdlib call).
+func (h *H) asymFullEnc(d *lib.Drv) {
+	ks := getKeys()
+	rng := h.rng.Fork()
+	kinds := []string{"rsaPriv", "rsaPub", "ecP256Priv", "ed25519Pub", "x25519Priv", "oct"}
+	names := append(append([]string{}, kc.SupportedAsymmetricAlgorithms()...), "RSA-OAEP-1", "ECDH-ES", "RS256", "RSA1_")
+	diff := func(corr, line, model, impl string) {
+		if model != impl {
+			h.res.Disagree(corr, map[string]any{"line": line}, model, impl)
+		} else {
+			h.res.Traces++
+		}
+	}
+	k := (ks.rsa[0].N.BitLen() + 7) / 8
+	for _, alg := range names {
+		for _, kind := range kinds {
+			key := ks.jwks[kind]
+			km := keyMatFields(ks, kind)
+			h.res.Hit("asymfull:" + alg)
+			msg := rng.Bytes(20)
+			label := rng.Bytes(5)
+			// decrypt: a genuine ciphertext (made by the stdlib for the RSA key) and a changed one
+			ct := rng.Bytes(k)
+			if _, ok := encSpecs[alg]; ok {
+				if c, err := stdEncrypt(alg, &ks.rsa[0].PublicKey, msg, label); err == nil {
+					ct = c
+				}
+			}
+			bad := cp(ct)
+			bad[len(bad)/3] ^= 0x04
+			for _, c := range [][]byte{ct, bad} {
+				o := callAsym("DecryptPrivateKey", alg, key, c, nil, label)
+				line := fmt.Sprintf("asymfull fn=DecryptPrivateKey alg=%s kind=%s %s data=%s label=%s", alg, kind, km, hx(c), hx(label))
+				ans, err := d.Ask(line)
+				if err != nil {
+					return
+				}
+				h.res.Count(line, o.class == "ok")
+				impl := "err " + o.class
+				if o.class == "ok" {
+					impl = "ok pt=" + hx(o.out)
+				}
+				if ans == "ok " {
+					ans = "ok pt="
+				}
+				diff("asymmetric model end to end: DecryptPrivateKey output / error class", line, canonFull(strings.TrimSpace(ans)), canonFull(strings.TrimSpace(impl)))
+			}
+			// encrypt: the model's ciphertext (its own randomness) must decrypt under the real code
+			var rnd []byte
+			if alg == "RSA1_5" {
+				rnd = nonZero(rng, k-len(msg)-3)
+			} else {
+				rnd = rng.Bytes(hashLenOf(alg))
+			}
+			eo := callAsym("EncryptPublicKey", alg, key, msg, nil, label)
+			line := fmt.Sprintf("asymfull fn=EncryptPublicKey alg=%s kind=%s %s data=%s label=%s rand=%s", alg, kind, km, hx(msg), hx(label), hx(rnd))
+			ans, err := d.Ask(line)
+			if err != nil {
+				return
+			}
+			h.res.Count(line, eo.class == "ok")
+			if eo.class == "ok" {
+				if mc, ok := field(ans, "ct"); ok {
+					do := callAsym("DecryptPrivateKey", alg, ks.jwks["rsaPriv"], unhx(mc), nil, label)
+					diff("asymmetric model end to end: a ciphertext made by the model decrypts under the real code", line, "ok pt="+hx(msg), do.class+" pt="+hx(do.out))
+				} else {
+					diff("asymmetric model end to end: EncryptPublicKey outcome", line, canonFull(ans), "ok")
+				}
+			} else {
+				diff("asymmetric model end to end: EncryptPublicKey error class", line, canonFull(ans), canonFull("err "+eo.class))
+			}
+		}
+	}
+}
+
+func hashLenOf(alg string) int {
+	if s, ok := encSpecs[alg]; ok && s.oaep {
+		return s.hlen
+	}
+	return 32
+}
+
 func (h *H) asymFull() {
 	if h.f.Drv == "" {
 		return
@@ -59,6 +142,7 @@ func (h *H) asymFull() {
 		return
 	}
 	defer d.Close()
+	h.asymFullEnc(d)
 	ks := getKeys()
 	rng := h.rng.Fork()
 	kinds := []string{"rsaPriv", "rsaPub", "ecP256Priv", "ecP256Pub", "ecP384Priv", "ecP384Pub", "ecP521Priv", "ecP521Pub", "ed25519Priv", "ed25519Pub", "x25519Priv", "oct"}
